@@ -197,6 +197,8 @@ type FS struct {
 	MaxOpen int // high-water mark of open handles
 
 	StdioMode fs.FileMode // fs.ModeCharDevice (terminal, default), fs.ModeNamedPipe, or 0 (regular file)
+
+	FailedWrites [][]byte // the buffers of file writes that an injected fault made fail (possibly after a short count)
 }
 
 // StreamWrite is one Write call received by a standard stream.
@@ -517,6 +519,7 @@ func (h *File) Write(b []byte) (int, error) {
 		if k > 0 {
 			h.commit(buf[:k], step, task)
 		}
+		f.FailedWrites = append(f.FailedWrites, buf)
 		return k, &PathError{Op: "write", Path: h.name, Err: r.Err}
 	}
 	h.commit(buf, step, task)
@@ -1221,4 +1224,15 @@ func MkdirTemp(dir, pattern string) (string, error) {
 	f.mu.Unlock()
 	name := dir + "/" + strings.Replace(pattern, "*", strconv.Itoa(n), 1)
 	return name, Mkdir(name, 0o700)
+}
+
+// FailedWriteSet returns the attempted contents of all file writes that failed.
+func (f *FS) FailedWriteSet() map[string]bool {
+	f.mu.Lock()
+	defer f.mu.Unlock()
+	out := map[string]bool{}
+	for _, b := range f.FailedWrites {
+		out[string(b)] = true
+	}
+	return out
 }
